@@ -409,6 +409,8 @@ type job struct {
 	i int
 }
 
+var failedNames sync.Map
+
 func dischargeAll(units []*Unit, cfg *solverCfg, workers int) {
 	var jobs []job
 	n := 0
@@ -425,7 +427,17 @@ func dischargeAll(units []*Unit, cfg *solverCfg, workers int) {
 		go func() {
 			defer wg.Done()
 			for j := range ch {
+				if j.o.Expect == "unsat" {
+					if _, failed := failedNames.Load(j.o.Name); failed {
+						// another instance of this obligation has already failed: the verdict for the name is settled
+						j.o.Result, j.o.Backend = "unknown", "skipped(same obligation already failed)"
+						continue
+					}
+				}
 				j.u.discharge(j.o, cfg, j.i)
+				if j.o.Expect == "unsat" && j.o.Result != "unsat" {
+					failedNames.Store(j.o.Name, true)
+				}
 			}
 		}()
 	}
@@ -439,7 +451,7 @@ func dischargeAll(units []*Unit, cfg *solverCfg, workers int) {
 	// "unsat" can come out of this that was not there before; a real failure just fails again.
 	var again []job
 	for _, j := range jobs {
-		if j.o.Expect == "unsat" && j.o.Result != "unsat" && j.o.Result != "sat" && !j.o.Short && j.o.Kind != "callsite" {
+		if j.o.Expect == "unsat" && j.o.Result != "unsat" && j.o.Result != "sat" && !j.o.Short && j.o.Kind != "callsite" && !strings.HasPrefix(j.o.Backend, "skipped") {
 			again = append(again, j)
 		}
 	}
